@@ -529,9 +529,14 @@ func run() int {
 
 	// bounded stand-ins (labelled bounded; never counted as proved)
 	var boundedOut []map[string]interface{}
+	var boundedUndecided []string
 	for _, bcfg := range cfg.Bounded {
 		out, viol := runBounded(bcfg)
 		boundedOut = append(boundedOut, out)
+		if und, _ := out["undecided"].(bool); und {
+			boundedUndecided = append(boundedUndecided, bcfg.Name)
+			fmt.Fprintf(os.Stderr, "vcheck: bounded stand-in %s could not decide: %v\n", bcfg.Name, out["error"])
+		}
 		if viol != "" {
 			violations++
 			fmt.Printf("VIOLATION property=%s replay=%s bounded=%s\n", *prop, viol, bcfg.Name)
@@ -616,6 +621,9 @@ func run() int {
 	}
 	if violations > 0 {
 		return 1
+	}
+	if len(boundedUndecided) > 0 {
+		return fatal("bounded stand-in(s) %v undecided (machinery problem, not a violation)", boundedUndecided)
 	}
 	return 0
 }
